@@ -146,6 +146,7 @@ class FileScan:
             for c in ast.iter_child_nodes(p):
                 self.parent[c] = p
         self.sites: list[tuple] = []
+        self.site_nodes: list[tuple] = []
 
     # ---------------------------------------------------------------- inference
     def callee_name(self, call: ast.Call) -> str | None:
@@ -277,6 +278,7 @@ class FileScan:
         text = ast.unparse(expr if expr is not None else node)
         text = re.sub(r"\s+", " ", text)
         self.sites.append((self.rel, self.qualname(node), ctx, text, getattr(node, "lineno", 0)))
+        self.site_nodes.append(((self.rel, self.qualname(node), ctx, text), node, ctx))
 
     def in_test_position(self, e) -> bool:
         p = self.parent.get(e)
@@ -496,12 +498,274 @@ def scan_repo(repo: str) -> list[tuple]:
     return sites
 
 
+# ------------------------------------------------------------------------------------------ derived sinks
+ORDER_FREE = {"member", "eq", "size"}
+
+
+class Deriver:
+    """Small data-flow over the AST that DERIVES, for each consumption of a set / listing, what its iteration order
+    can reach, for the common shapes; anything else is "unknown" (the check then fails closed unless the table row
+    names a downstream expression that the scan can find).  Derived sinks:
+      sorted     wrapped in sorted(...) here; or a comprehension directly inside sorted(...); or a parameter /
+                 generator result that EVERY call site wraps in sorted(...)
+      member     membership / equality / size; a loop or comprehension that only feeds other sets; an argument
+                 whose parameter is consumed order-free in every callee of that name (one level deep)
+      none       construction
+      errortext  only inside a `raise` statement
+      unknown    everything else (escapes through a return / container / call the pass does not follow)"""
+
+    def __init__(self, scans: dict, trees: dict):
+        self.scans, self.trees = scans, trees
+        self.calls: dict[str, list[tuple]] = {}      # callee name -> [(scan, Call node)]
+        self.defs: dict[str, list[tuple]] = {}       # function name -> [(scan, FunctionDef)]
+        for sc in scans.values():
+            for n in ast.walk(sc.tree):
+                if isinstance(n, ast.Call):
+                    cn = sc.callee_name(n)
+                    if cn:
+                        self.calls.setdefault(cn, []).append((sc, n))
+                elif isinstance(n, (ast.FunctionDef, ast.AsyncFunctionDef)):
+                    self.defs.setdefault(n.name, []).append((sc, n))
+
+    # -- helpers
+    def enclosing(self, sc, node, types):
+        p = sc.parent.get(node)
+        while p is not None and not isinstance(p, types):
+            if isinstance(p, (ast.FunctionDef, ast.AsyncFunctionDef, ast.Lambda)) and ast.FunctionDef not in (
+                    types if isinstance(types, tuple) else (types,)):
+                return None
+            p = sc.parent.get(p)
+        return p
+
+    def enclosing_function(self, sc, node):
+        p = sc.parent.get(node)
+        while p is not None and not isinstance(p, (ast.FunctionDef, ast.AsyncFunctionDef)):
+            p = sc.parent.get(p)
+        return p
+
+    def feeds_only_sets(self, sc, stmts) -> bool:
+        for st in stmts:
+            if isinstance(st, (ast.Assign, ast.AnnAssign, ast.AugAssign)):
+                tgts = st.targets if isinstance(st, ast.Assign) else [st.target]
+                if st.value is None or not sc.is_set(st.value) or not all(
+                        _name_of(t) is not None and _name_of(t) in sc.sets for t in tgts):
+                    return False
+            elif isinstance(st, ast.Expr) and isinstance(st.value, ast.Call) and isinstance(st.value.func, ast.Attribute) \
+                    and st.value.func.attr in SET_MUTATORS and sc.is_set(st.value.func.value):
+                pass
+            elif isinstance(st, ast.If):
+                if not (self.feeds_only_sets(sc, st.body) and self.feeds_only_sets(sc, st.orelse)):
+                    return False
+            elif isinstance(st, (ast.Pass, ast.Continue)):
+                pass
+            else:
+                return False
+        return True
+
+    def all_callers_sort(self, fn_name: str, param: str | None, index: int | None):
+        """every call of fn_name passes sorted(...) for the parameter (or, param None: wraps the call in sorted)"""
+        calls = self.calls.get(fn_name, [])
+        if not calls:
+            return None
+        for sc, call in calls:
+            if param is None:
+                par = sc.parent.get(call)
+                if not (isinstance(par, ast.Call) and isinstance(par.func, ast.Name) and par.func.id == "sorted"
+                        and par.args and par.args[0] is call):
+                    return False
+                continue
+            arg = None
+            for kw in call.keywords:
+                if kw.arg == param:
+                    arg = kw.value
+            if arg is None and index is not None and index < len(call.args):
+                arg = call.args[index]
+            if not (isinstance(arg, ast.Call) and isinstance(arg.func, ast.Name) and arg.func.id == "sorted"):
+                return False
+        return True
+
+    def param_info(self, sc, node):
+        """node is a Name that is a parameter of its enclosing function -> (function, name, positional index sans self)"""
+        if not isinstance(node, ast.Name):
+            return None
+        fn = self.enclosing_function(sc, node)
+        if fn is None:
+            return None
+        names = [a.arg for a in fn.args.posonlyargs + fn.args.args]
+        if node.id not in names + [a.arg for a in fn.args.kwonlyargs]:
+            return None
+        # rebound inside the function? then it is not simply the parameter
+        for n in ast.walk(fn):
+            if isinstance(n, (ast.Assign, ast.AugAssign, ast.AnnAssign)):
+                tgts = n.targets if isinstance(n, ast.Assign) else [n.target]
+                if any(isinstance(t, ast.Name) and t.id == node.id for t in tgts):
+                    return None
+        pos = [x for x in names if x not in ("self", "cls")]
+        return fn, node.id, (pos.index(node.id) if node.id in pos else None)
+
+    def callee_param_order_free(self, sc, call: ast.Call, arg_node, depth=0):
+        cn = sc.callee_name(call)
+        defs = self.defs.get(cn or "", [])
+        if not defs or depth > 1:
+            return False
+        for dsc, fn in defs:
+            names = [a.arg for a in fn.args.posonlyargs + fn.args.args if a.arg not in ("self", "cls")]
+            pname = None
+            for kw in call.keywords:
+                if kw.value is arg_node:
+                    pname = kw.arg
+            if pname is None and arg_node in call.args:
+                i = call.args.index(arg_node)
+                pname = names[i] if i < len(names) else None
+            if pname is None:
+                return False
+            for n in ast.walk(fn):
+                if isinstance(n, ast.Name) and n.id == pname and isinstance(n.ctx, ast.Load):
+                    if not self.use_order_free(dsc, n, depth + 1):
+                        return False
+        return True
+
+    def use_order_free(self, sc, n, depth=0) -> bool:
+        """one load of a set-typed name: is this use order-free?"""
+        ctx = sc.classify(n) if sc.is_set(n) else "not-a-set"
+        if ctx == "not-a-set":
+            return False
+        if ctx is None:      # set algebra / data flow: follow one step to the enclosing set expression
+            p = sc.parent.get(n)
+            if isinstance(p, (ast.BinOp, ast.BoolOp)) and sc.is_set(p):
+                return self.use_order_free(sc, p, depth) if sc.classify(p) is not None or isinstance(
+                    sc.parent.get(p), (ast.BinOp, ast.BoolOp, ast.Return, ast.Assign)) else True
+            if isinstance(p, (ast.Return, ast.Assign, ast.AnnAssign, ast.AugAssign)):
+                return True   # handed on as a set: its consumers are sites of their own
+            if isinstance(p, ast.Attribute):
+                return True   # method of the set (union, copy, add ...)
+            if isinstance(p, ast.Call):
+                return True   # argument of set algebra (classify returned None for exactly those)
+            return False
+        if ctx in ORDER_FREE or ctx == "sorted":
+            return True
+        if ctx in ("iter",) or ctx.startswith("iter:"):
+            return self.derive(sc, n, ctx, depth)[0] in ("member", "sorted", "errortext")
+        if ctx == "arg":
+            return self.callee_param_order_free(sc, sc.parent.get(n), n, depth)
+        return False
+
+    # -- the derivation
+    def derive(self, sc, node, ctx, depth=0):
+        if ctx == "sorted":
+            return "sorted", "sorted(...) here"
+        if ctx in ORDER_FREE:
+            return "member", ctx
+        if ctx == "construct":
+            return "none", "construction"
+        if not (ctx == "iter" or ctx.startswith("iter:") or ctx == "arg"):
+            return None, "not derived for this context"
+        # only inside a raise statement?
+        p = sc.parent.get(node)
+        q = p
+        while q is not None and not isinstance(q, (ast.FunctionDef, ast.AsyncFunctionDef)):
+            if isinstance(q, ast.Raise):
+                return "errortext", "inside a raise statement"
+            q = sc.parent.get(q)
+        if ctx == "arg":
+            if self.callee_param_order_free(sc, p, node, depth):
+                return "member", f"parameter of {sc.callee_name(p)} is consumed order-free"
+            return "unknown", f"argument of {sc.callee_name(p)}"
+        # a parameter that every caller passes sorted
+        pi = self.param_info(sc, node)
+        if pi is not None:
+            fn, pname, idx = pi
+            r = self.all_callers_sort(fn.name, pname, idx)
+            if r:
+                return "sorted", f"every call of {fn.name} passes sorted(...) for {pname}"
+        if isinstance(p, (ast.For, ast.AsyncFor)) and p.iter is node:
+            if self.feeds_only_sets(sc, p.body) and not p.orelse:
+                return "member", "loop body only feeds other sets"
+            fn = self.enclosing_function(sc, node)
+            yields = [y for y in ast.walk(p) if isinstance(y, (ast.Yield, ast.YieldFrom))]
+            if fn is not None and yields:
+                r = self.all_callers_sort(fn.name, None, None)
+                if r:
+                    return "sorted", f"generator: every call of {fn.name} is wrapped in sorted(...)"
+            return "unknown", "for loop whose body does more than feed sets"
+        if isinstance(p, ast.comprehension) and p.iter is node:
+            comp = sc.parent.get(p)
+            cpar = sc.parent.get(comp)
+            if isinstance(comp, (ast.SetComp,)):
+                return "member", "feeds a set comprehension"
+            if isinstance(cpar, ast.Call) and isinstance(cpar.func, ast.Name) and cpar.args and cpar.args[0] is comp:
+                if cpar.func.id == "sorted":
+                    return "sorted", "comprehension directly inside sorted(...)"
+                if cpar.func.id in ("set", "frozenset", "any", "all", "sum", "len", "min", "max"):
+                    return "member", f"comprehension inside {cpar.func.id}(...)"
+            return "unknown", "comprehension whose result keeps the order"
+        if ctx.startswith("iter:"):
+            if isinstance(p, ast.Call):
+                pp = sc.parent.get(p)
+                if isinstance(pp, ast.Call) and isinstance(pp.func, ast.Name) and pp.func.id == "sorted" and pp.args and pp.args[0] is p:
+                    return "sorted", f"{ctx[5:]}(...) directly inside sorted(...)"
+            return "unknown", f"{ctx[5:]}(...) keeps the iteration order"
+        return "unknown", "shape not understood"
+
+
+def scan_repo_full(repo: str):
+    """(sites, derived) — derived: {site key: (sink or None, why)}"""
+    base = os.path.join(repo, "ariadne_codegen")
+    trees = {}
+    for root, _dirs, files in os.walk(base):
+        for f in sorted(files):
+            if f.endswith(".py"):
+                p_ = os.path.join(root, f)
+                rel = os.path.relpath(p_, base)
+                if not any(rel.startswith(x) for x in EXCLUDE_DIRS):
+                    trees[rel] = ast.parse(open(p_, encoding="utf-8").read())
+    g = gather_globals(trees)
+    scans = {}
+    for rel in sorted(trees):
+        sc = FileScan(rel, trees[rel], g)
+        sc.scan()
+        scans[rel] = sc
+    d = Deriver(scans, trees)
+    derived = {}
+    for rel in sorted(scans):
+        sc = scans[rel]
+        for key, node, ctx in sc.site_nodes:
+            sink, why = d.derive(sc, node, ctx)
+            prev = derived.get(key)
+            if prev is not None and prev[0] != sink:
+                sink, why = "unknown", f"occurrences disagree: {prev[1]} / {why}"
+            derived[key] = (sink, why)
+    return d, derived
+
+
+def find_expression(repo_deriver: "Deriver", rel: str, fn_name: str, expr: str) -> bool:
+    """does function fn_name of file rel contain an expression that unparses to expr (whitespace-normalised)?"""
+    sc = repo_deriver.scans.get(rel)
+    if sc is None:
+        return False
+    for n in ast.walk(sc.tree):
+        if isinstance(n, ast.expr):
+            try:
+                if re.sub(r"\s+", " ", ast.unparse(n)) == expr and sc.qualname(n) == fn_name:
+                    return True
+            except Exception:  # noqa
+                continue
+    return False
+
+
 def key_counts(sites) -> dict[tuple, list[int]]:
     out: dict[tuple, list[int]] = {}
     for f, fn, ctx, text, line in sites:
         out.setdefault((f, fn, ctx, text), []).append(line)
     return out
 
+
+if __name__ == "__main__" and len(sys.argv) > 2 and sys.argv[2] == "--derived":
+    _d, der = scan_repo_full(sys.argv[1])
+    for k, (sink, why) in sorted(der.items()):
+        if sink is not None:
+            print(f"{k[0]}\t{k[1]}\t{k[2]}\t{k[3][:60]}\t=> {sink}\t({why})")
+    sys.exit(0)
 
 if __name__ == "__main__":
     repo = sys.argv[1] if len(sys.argv) > 1 else os.environ.get("VERIF_REPO", "/repo")
